@@ -56,7 +56,9 @@ def confirm(prop, k, src=None, wt=None):
 def check(sid):
     d = os.path.join(VERIF, "seeded", sid)
     meta = json.load(open(os.path.join(d, "meta.json")))
-    prop = meta["property"]
+    # "checked_by": the change was seeded against meta["property"], but what it breaks is decided by another
+    # property's check (the seeded property holds vacuously, e.g. the object can no longer be built at all)
+    prop = meta.get("checked_by", meta["property"])
     tmp = tempfile.mkdtemp(prefix="mingus-seeded-")
     try:
         subprocess.check_call(["rsync", "-a", "--exclude", ".git", "--exclude", "__pycache__", "/repo/", tmp + "/"])
